@@ -184,7 +184,7 @@ pub fn exec(case: &Case) -> Outcome {
                 setup.rebuild_time_index().await.expect("set-up legacy index");
                 if let Some(p) = core.find_path("catalog.json") {
                     use object_store::ObjectStore;
-                    let _ = core.node(99).delete(&object_store::path::Path::from(p.as_str())).await;
+                    if let Ok(pp) = object_store::path::Path::parse(&p) { let _ = core.node(99).delete(&pp).await; }
                     out.class("starts-from-the-legacy-two-file-layout");
                 }
             }
@@ -404,6 +404,14 @@ pub fn exec(case: &Case) -> Outcome {
             out.class("compaction-target-missing");
         }
 
+        if std::env::var("VERIF_DEBUG").is_ok() {
+            for l in core.log() {
+                eprintln!("  #{} node {} {:?} {} [{}] -> {} (effect {})", l.id, l.desc.node, l.desc.op, l.desc.path, l.desc.detail, l.outcome, l.effect_seq);
+            }
+            for r in results.iter() {
+                eprintln!("  result client {} op {} ok={} {}", r.client, r.idx, r.ok, r.err);
+            }
+        }
         // (c) every version consistent
         for (vi, v) in versions.iter().enumerate().filter(|(_, v)| v.path.ends_with("catalog.json")) {
             match serde_json::from_slice::<MetadataCatalog>(&v.data) {
